@@ -141,6 +141,38 @@ CHECKS = {
         design='4/C13'),
 }
 
+CHECKS['C14'] = dict(
+    category='exploration',
+    technique='executable reference model (lease state machine) replayed over the observed order of LEASE receptions and API calls under a virtual clock; must predict exactly which requests enter the send path, in which order, under which lease',
+    text='A lease-honouring real client runs against a raw server sending seeded LEASE sequences at scripted virtual '
+         'times interleaved with requests of all four types, including requests exactly at expiry -1us/0/+1us and '
+         'bounded retention queues. Online clauses (no request before the first lease, not more than granted, none '
+         'after ttl, at most once) plus equality with the reference model (FIFO release, nothing withheld). Responder '
+         'clause: LEASE frames of a real server equal the leases its publisher emitted (count, ttl in ms). Held-on-explored.',
+    note='wall-clock reads of the library (datetime.now) are redirected to the virtual clock by the harness; verified by '
+         'a self-test at start-up.',
+    design='4/C14')
+CHECKS['C15'] = dict(
+    category='exploration',
+    technique='timed trace monitor under a virtual clock: echo multiset/order oracle, period-gap oracle, and two-sided timeout oracle asserted only on runs whose measured arrival gaps make the clause applicable',
+    text='Echo: seeded KEEPALIVE sequences to a real client and a real server; the endpoint must send exactly the owed '
+         'echoes (no respond flag, same data, in order) and nothing else. Periodic/timeout: a real client with period P '
+         'and lifetime L against a raw server with scripted acknowledgement patterns; send gaps must lie in [P, P+eps]; '
+         'no timeout callback in runs whose arrival gaps were all <= L; a callback by last arrival + 2L + eps when '
+         'silent longer. Held-on-explored.',
+    note='eps = 1 ms virtual + configured link delay.',
+    design='4/C15')
+CHECKS['C16'] = dict(
+    category='exploration',
+    technique='wire monitor with an independent decoder on the first frames of every new connection vs. the configuration; exhaustive product of server-side setup conditions against a recording handler',
+    text='Client: seeded configurations (timedeltas with sub-second parts, MIME types as enum/str/bytes/custom names, '
+         'payloads, lease) with suspending connect() / provider and 0..5 requests of every type issued by other tasks at '
+         'every tick of the connection sequence; the first frame must be the single SETUP and every decoded field must '
+         'equal the configuration. Server: all 256 combinations of {framing, resume, lease, publisher, on_setup raises, '
+         'payload} and RESUME frames: exactly the matching ERROR on stream 0 and the right number of on_setup calls with '
+         'the right arguments. Held-on-explored; server product exhaustive.',
+    note='timedeltas in whole milliseconds.',
+    design='4/C16')
 CHECKS['C18'] = dict(
     category='exploration',
     technique='round-trip oracle over seeded composite-metadata values with boundary lengths, differential across codec backends; exhaustive table bijection and length-limit sweeps',
